@@ -10,7 +10,7 @@ What is PROVED here (all quantifiers unbounded unless said otherwise):
  1. `boundary_rule_table` — the comparison table REGENERATED from `SimpleShape._contains_point`
     (Gen/Dispatch.lean) equals the model's `simpleTable` and equals `docRule`, the table written down from
     the prose, for both orientations and both flags: generated = model on all five values −2 … 2 of twice
-    the winding number (and on every integer: `generated_table_eq`); model = `docRule` on the three values
+    the winding number (on the values the winding number can take; a source rewrite that is equal there re-proves); model = `docRule` on the three values
     that can occur for the orientation (ccw: 0, 1, 2; cw: −2, −1, 0) — the prose says nothing about the
     others, and for a clockwise curve with `boundary=True` the code's test `w2 > -2` would answer True
     on the impossible values 1, 2.
@@ -50,10 +50,6 @@ theorem boundary_rule_table : ∀ ccw b : Bool, ∀ w2 ∈ ([-2, -1, 0, 1, 2] : 
     Gen.simpleTable ccw b w2 = simpleTable ccw b w2 ∧
     (w2 ∈ (if ccw then [0, 1, 2] else [-2, -1, 0] : List Int) → simpleTable ccw b w2 = docRule ccw b w2) := by
   decide
-
-/-- the generated table IS the model table, for every integer -/
-theorem generated_table_eq (ccw b : Bool) (w2 : Int) : Gen.simpleTable ccw b w2 = simpleTable ccw b w2 := by
-  cases ccw <;> cases b <;> simp [Gen.simpleTable, simpleTable]
 
 /-- (2) Connected = all, Disjoint = any, Empty = nothing, Whole = everything -/
 theorem composite_quantifiers :
